@@ -2,18 +2,26 @@ import RvModel.RealInst
 import RvModel.Gen.Defs
 import RvModel.Lemmas.C06
 /-!
-  C06 (group B): the three conjugate priors of the Gaussian (NormalGamma, NormalInvGamma, NormalInvChiSquared).
+  C06 (group B): NormalGamma–, NormalInvGamma–, NormalInvChiSquared–Gaussian over the exact-real carrier `R`.
+
+  Per pair: cached = uncached (`*_cached`, `*_eq_exp`, `*_data_eq_stat`), `ln_m [] = 0`, permutation invariance of
+  `ln_m` (the Welford update commutes exactly on `R`, `C06L.GaussStat_obs_comm`), the chain rule (here structural: the
+  code computes `ln_pp` and `ln_m` through the same `ln_z (posterior_from_stat …)`), and
+  `*_pp_normalised_partial`: `ln_pp y | S` is the log-density of the textbook Student-t whose parameters are read off
+  the model's own posterior (this uses the closed form of `posterior_from_stat` and the one-step composition
+  `posterior (S ∪ {y})` from `posterior S`).  Missing for the full normalisation statement: the Student-t integral
+  (not in Mathlib).  The integral form of `m` for these two-dimensional priors is not attempted.
+
+  Not in the generated model: the trait default `ConjugatePrior::m` of these three priors (its key collides with the
+  inherent getter `m()`), and `ConjugateModel`.
+
+  Helper lemmas: `RvModel/Lemmas/C06.lean` (namespace `C06L`).
 -/
 set_option linter.unusedSimpArgs false
+set_option linter.unnecessarySeqFocus false
 open Real C06L
 
 namespace C06
-
-abbrev GStat := Gen.GaussianSuffStat R
-noncomputable abbrev gfold (xs : List R) : GStat := xs.foldl Gen.GaussianSuffStat.observe_real Gen.GaussianSuffStat.new
-
-theorem gfold_append (xs : List R) (y : R) : gfold (xs ++ [y]) = Gen.GaussianSuffStat.observe_real (gfold xs) y := by
-  simp [gfold, List.foldl_append]
 
 /-! ## NormalGamma – Gaussian -/
 
@@ -97,6 +105,43 @@ theorem NormalGamma_Gaussian_ln_m_empty (pr : Gen.NormalGamma R) (hr : 0 < pr.r.
     ring
   · simp only [R.add_val, R.ofNatR_val, Nat.cast_zero, add_zero]; exact hv
 
+/-! ### NormalGamma: the predictive is a Student-t -/
+
+/-- The NormalGamma posterior predictive of `y` given a statistic is the Student-t density with `ν = vₙ`, location `mₙ`
+    and squared scale `sₙ(rₙ+1)/(vₙ rₙ)`, where `(mₙ,rₙ,sₙ,vₙ)` is the model's own posterior
+    (`posterior_from_stat_normal_gamma`).  Full statement of C06.5 for this pair would add
+    `∫ y, exp (ln_pp y) = 1`; missing: Mathlib has no Student-t distribution, i.e. no proof of
+    `∫ (1 + t²/ν)^(-(ν+1)/2) dt = √(νπ) Γ(ν/2) / Γ((ν+1)/2)`. -/
+-- @site NormalGamma.ln_pp_real_Gaussian
+theorem NormalGamma_Gaussian_pp_normalised_partial (pr : Gen.NormalGamma R) (S : GStat) (y : R)
+    (hr : 0 < pr.r.val) (hs : 0 < pr.s.val) (hv : 0 < pr.v.val) (hsx : 0 ≤ S.sx.val) :
+    (Gen.NormalGamma.ln_pp_real_Gaussian pr y (.suffStat S)).val
+      = lnStudentT (Gen.NormalGamma.posterior_real_Gaussian pr (.suffStat S)).v.val
+          (Gen.NormalGamma.posterior_real_Gaussian pr (.suffStat S)).m.val
+          ((Gen.NormalGamma.posterior_real_Gaussian pr (.suffStat S)).s.val
+            * ((Gen.NormalGamma.posterior_real_Gaussian pr (.suffStat S)).r.val + 1)
+            / ((Gen.NormalGamma.posterior_real_Gaussian pr (.suffStat S)).v.val
+                * (Gen.NormalGamma.posterior_real_Gaussian pr (.suffStat S)).r.val)) y.val := by
+  obtain ⟨p1, p2, p3, p4⟩ := NG_post_vals pr S hr hs hv hsx
+  obtain ⟨q1, q2, q3, q4⟩ := NG_post_vals pr (Gen.GaussianSuffStat.observe_real S y) hr hs hv
+    (GaussStat_obs_sx_nonneg S y hsx)
+  have hn1 : (0:ℝ) < (S.n : ℝ) + 1 := by positivity
+  have hrn : 0 < pr.r.val + (S.n : ℝ) := by positivity
+  have hrn1 : 0 < pr.r.val + (S.n : ℝ) + 1 := by positivity
+  have hP : Gen.NormalGamma.posterior_real_Gaussian pr (.suffStat S) = Gen.posterior_from_stat_normal_gamma pr S := rfl
+  rw [hP]
+  simp only [Gen.NormalGamma.ln_pp_real_Gaussian, Gen.NormalGamma.ln_pp_cache_real_Gaussian,
+    Gen.NormalGamma.ln_pp_with_cache_real_Gaussian, Gen.NormalGamma.get_r, Gen.NormalGamma.get_s, Gen.NormalGamma.get_v,
+    ln_z_normal_gamma_val, R.add_val, R.sub_val, R.neg_val, R.halfLn2Pi_val]
+  refine ng_student (by rw [p1]; exact hrn) (by rw [p4]; positivity) (by rw [p2]; positivity) ?_ ?_ ?_
+  · rw [q1, p1]; simp only [Gen.GaussianSuffStat.observe_real]; push_cast; ring
+  · rw [q2, p2]; simp only [Gen.GaussianSuffStat.observe_real]; push_cast; ring
+  · rw [q4, p4, p1, p3]
+    simp only [Gen.GaussianSuffStat.observe_real, mulAdd, RealLike.recip, R.add_val, R.sub_val, R.mul_val, R.div_val,
+      R.ofNatR_val, lit1, Nat.cast_add, Nat.cast_one]
+    field_simp
+    ring
+
 example : ∃ pr : Gen.NormalGamma R, 0 < pr.r.val ∧ 0 < pr.s.val ∧ 0 < pr.v.val :=
   ⟨⟨⟨-1⟩, ⟨2⟩, ⟨3/2⟩, ⟨5⟩⟩, by norm_num, by norm_num, by norm_num⟩
 
@@ -158,28 +203,6 @@ theorem NormalInvGamma_Gaussian_ln_m_perm (pr : Gen.NormalInvGamma R) {xs ys : L
   rw [NormalInvGamma_Gaussian_ln_m_data_eq_stat, NormalInvGamma_Gaussian_ln_m_data_eq_stat, gfold, gfold,
     GaussStat_fold_perm h]
 
-theorem NIG_post_new (pr : Gen.NormalInvGamma R) (hv : 0 < pr.v.val) (ha : 0 < pr.a.val) (hb : 0 < pr.b.val) :
-    (Gen.posterior_from_stat_normal_inv_gamma pr Gen.GaussianSuffStat.new).v.val = pr.v.val
-    ∧ (Gen.posterior_from_stat_normal_inv_gamma pr Gen.GaussianSuffStat.new).a.val = pr.a.val
-    ∧ (Gen.posterior_from_stat_normal_inv_gamma pr Gen.GaussianSuffStat.new).b.val = pr.b.val := by
-  have hv' := hv.ne'
-  simp only [Gen.posterior_from_stat_normal_inv_gamma,
-    Gen.NormalInvGamma.emit_params, Gen.NormalInvGamma.get_m, Gen.NormalInvGamma.get_v, Gen.NormalInvGamma.get_a,
-    Gen.NormalInvGamma.get_b,
-    Gen.GaussianSuffStat.get_n, Gen.GaussianSuffStat.sum_x, Gen.GaussianSuffStat.sum_x_sq,
-    Gen.GaussianSuffStat.get_mean, Gen.GaussianSuffStat.new]
-  rw [NormalInvGamma_new_ok]
-  · refine ⟨?_, ?_, ?_⟩ <;>
-      simp only [mulAdd, RealLike.recip, R.add_val, R.sub_val, R.mul_val, R.div_val, R.neg_val, R.ofNatR_val, lit0,
-        lit05, lit1, Nat.cast_zero] <;> field_simp <;> ring
-  · simp only [RealLike.recip, R.add_val, R.div_val, R.ofNatR_val, lit1, Nat.cast_zero, add_zero]; positivity
-  · simp only [mulAdd, R.add_val, R.mul_val, R.ofNatR_val, Nat.cast_zero, zero_mul, zero_add]; exact ha
-  · convert hb using 1
-    simp only [mulAdd, RealLike.recip, R.add_val, R.sub_val, R.mul_val, R.div_val, R.neg_val, R.ofNatR_val, lit0,
-      lit05, lit1, Nat.cast_zero]
-    field_simp
-    ring
-
 -- @site NormalInvGamma.ln_m_real_Gaussian
 theorem NormalInvGamma_Gaussian_ln_m_empty (pr : Gen.NormalInvGamma R) (hv : 0 < pr.v.val) (ha : 0 < pr.a.val)
     (hb : 0 < pr.b.val) :
@@ -191,6 +214,42 @@ theorem NormalInvGamma_Gaussian_ln_m_empty (pr : Gen.NormalInvGamma R) (hv : 0 <
     Gen.GaussianSuffStat.get_n, mulAdd, R.add_val, R.sub_val, R.mul_val, R.neg_val, R.ln_val, R.lgamma_val,
     R.ofNatR_val, e1, e2, e3]
   simp [Gen.GaussianSuffStat.new]
+
+/-! ### NormalInvGamma: the predictive is a Student-t -/
+
+/-- The NormalInvGamma posterior predictive is the Student-t density with `ν = 2aₙ`, location `mₙ`, squared scale
+    `bₙ(1+vₙ)/aₙ` for the model's own posterior `(mₙ,vₙ,aₙ,bₙ)`.  Missing for the full C06.5 statement: the
+    Student-t normalisation integral (not in Mathlib). -/
+-- @site NormalInvGamma.ln_pp_real_Gaussian
+theorem NormalInvGamma_Gaussian_pp_normalised_partial (pr : Gen.NormalInvGamma R) (S : GStat) (y : R)
+    (hv : 0 < pr.v.val) (ha : 0 < pr.a.val) (hb : 0 < pr.b.val) (hsx : 0 ≤ S.sx.val) :
+    (Gen.NormalInvGamma.ln_pp_real_Gaussian pr y (.suffStat S)).val
+      = lnStudentT (2 * (Gen.NormalInvGamma.posterior_real_Gaussian pr (.suffStat S)).a.val)
+          (Gen.NormalInvGamma.posterior_real_Gaussian pr (.suffStat S)).m.val
+          ((Gen.NormalInvGamma.posterior_real_Gaussian pr (.suffStat S)).b.val
+            * (1 + (Gen.NormalInvGamma.posterior_real_Gaussian pr (.suffStat S)).v.val)
+            / (Gen.NormalInvGamma.posterior_real_Gaussian pr (.suffStat S)).a.val) y.val := by
+  obtain ⟨p1, p2, p3, p4⟩ := NIG_post_vals pr S hv ha hb hsx
+  obtain ⟨q1, q2, q3, q4⟩ := NIG_post_vals pr (Gen.GaussianSuffStat.observe_real S y) hv ha hb
+    (GaussStat_obs_sx_nonneg S y hsx)
+  have hn1 : (0:ℝ) < (S.n : ℝ) + 1 := by positivity
+  have h1 : 0 < 1 + (S.n : ℝ) * pr.v.val := by positivity
+  have h2 : 0 < 1 + ((S.n : ℝ) + 1) * pr.v.val := by positivity
+  have h3 : 0 < 1 + (S.n : ℝ) * pr.v.val + pr.v.val := by positivity
+  have hP : Gen.NormalInvGamma.posterior_real_Gaussian pr (.suffStat S)
+      = Gen.posterior_from_stat_normal_inv_gamma pr S := rfl
+  rw [hP]
+  simp only [Gen.NormalInvGamma.ln_pp_real_Gaussian, Gen.NormalInvGamma.ln_pp_cache_real_Gaussian,
+    Gen.NormalInvGamma.ln_pp_with_cache_real_Gaussian,
+    ln_z_normal_inv_gamma_val, R.add_val, R.sub_val, R.neg_val, R.halfLn2Pi_val]
+  refine nig_student (by rw [p1]; positivity) (by rw [p2]; positivity) (by rw [p4]; positivity) ?_ ?_ ?_
+  · rw [q1, p1]; simp only [Gen.GaussianSuffStat.observe_real]; push_cast; field_simp; ring
+  · rw [q2, p2]; simp only [Gen.GaussianSuffStat.observe_real]; push_cast; ring
+  · rw [q4, p4, p1, p3]
+    simp only [Gen.GaussianSuffStat.observe_real, mulAdd, RealLike.recip, R.add_val, R.sub_val, R.mul_val, R.div_val,
+      R.ofNatR_val, lit1, Nat.cast_add, Nat.cast_one]
+    field_simp
+    ring
 
 example : ∃ pr : Gen.NormalInvGamma R, 0 < pr.v.val ∧ 0 < pr.a.val ∧ 0 < pr.b.val :=
   ⟨⟨⟨-1⟩, ⟨2⟩, ⟨3/2⟩, ⟨5⟩⟩, by norm_num, by norm_num, by norm_num⟩
@@ -263,13 +322,100 @@ theorem NormalInvChiSquared_Gaussian_ln_m_empty (pr : Gen.NormalInvChiSquared R)
     mulAdd, R.add_val, R.sub_val, R.mul_val, R.neg_val, R.ofNatR_val, Nat.cast_zero]
   ring
 
+/-! ### NormalInvChiSquared: the predictive is a Student-t -/
+
+/-- The NormalInvChiSquared posterior predictive is the Student-t density with `ν = vₙ`, location `mₙ`, squared scale
+    `(1+kₙ) s2ₙ / kₙ` for the model's own posterior `(mₙ,kₙ,vₙ,s2ₙ)`.  Missing for the full C06.5 statement: the
+    Student-t normalisation integral (not in Mathlib). -/
+-- @site NormalInvChiSquared.ln_pp_real_Gaussian
+theorem NormalInvChiSquared_Gaussian_pp_normalised_partial (pr : Gen.NormalInvChiSquared R) (S : GStat) (y : R)
+    (hk : 0 < pr.k.val) (hv : 0 < pr.v.val) (hs : 0 < pr.s2.val) (hsx : 0 ≤ S.sx.val)
+    (hsx0 : S.n = 0 → S.sx.val = 0) :
+    (Gen.NormalInvChiSquared.ln_pp_real_Gaussian pr y (.suffStat S)).val
+      = lnStudentT (Gen.NormalInvChiSquared.posterior_real_Gaussian pr (.suffStat S)).v.val
+          (Gen.NormalInvChiSquared.posterior_real_Gaussian pr (.suffStat S)).m.val
+          ((1 + (Gen.NormalInvChiSquared.posterior_real_Gaussian pr (.suffStat S)).k.val)
+            * (Gen.NormalInvChiSquared.posterior_real_Gaussian pr (.suffStat S)).s2.val
+            / (Gen.NormalInvChiSquared.posterior_real_Gaussian pr (.suffStat S)).k.val) y.val := by
+  obtain ⟨p1, p2, p3, p4⟩ := NIX_post_vals pr S hk hv hs hsx hsx0
+  obtain ⟨q1, q2, q3, q4⟩ := NIX_post_vals pr (Gen.GaussianSuffStat.observe_real S y) hk hv hs
+    (GaussStat_obs_sx_nonneg S y hsx) (by intro h; simp [Gen.GaussianSuffStat.observe_real] at h)
+  have hn1 : (0:ℝ) < (S.n : ℝ) + 1 := by positivity
+  have hkn : 0 < pr.k.val + (S.n : ℝ) := by positivity
+  have hvn : 0 < pr.v.val + (S.n : ℝ) := by positivity
+  have hkn1 : 0 < pr.k.val + (S.n : ℝ) + 1 := by positivity
+  have hvn1 : 0 < pr.v.val + (S.n : ℝ) + 1 := by positivity
+  have hkn1' : 0 < pr.k.val + ((S.n : ℝ) + 1) := by positivity
+  have hvn1' : 0 < pr.v.val + ((S.n : ℝ) + 1) := by positivity
+  have hP : Gen.NormalInvChiSquared.posterior_real_Gaussian pr (.suffStat S)
+      = Gen.posterior_from_stat_normal_inv_chi_squared pr S := rfl
+  rw [hP]
+  simp only [Gen.NormalInvChiSquared.ln_pp_real_Gaussian, Gen.NormalInvChiSquared.ln_pp_cache_real_Gaussian,
+    Gen.NormalInvChiSquared.ln_pp_with_cache_real_Gaussian,
+    NIX_ln_z_val, R.add_val, R.sub_val, R.neg_val, R.halfLnPi_val]
+  refine nix_student (by rw [p1]; exact hkn) (by rw [p2]; exact hvn) (by rw [p4]; positivity) ?_ ?_ ?_
+  · rw [q1, p1]; simp only [Gen.GaussianSuffStat.observe_real]; push_cast; ring
+  · rw [q2, p2]; simp only [Gen.GaussianSuffStat.observe_real]; push_cast; ring
+  · rw [q2, q4, p1, p2, p3, p4]
+    simp only [Gen.GaussianSuffStat.observe_real, mulAdd, RealLike.recip, R.add_val, R.sub_val, R.mul_val, R.div_val,
+      R.ofNatR_val, lit1, Nat.cast_add, Nat.cast_one]
+    field_simp
+    ring
+
 example : ∃ pr : Gen.NormalInvChiSquared R, 0 < pr.k.val ∧ 0 < pr.v.val ∧ 0 < pr.s2.val :=
   ⟨⟨⟨-1⟩, ⟨2⟩, ⟨3/2⟩, ⟨5⟩⟩, by norm_num, by norm_num, by norm_num⟩
+
+/-! ## data-level corollaries of the Student-t identities -/
+
+-- @site NormalGamma.ln_pp_real_Gaussian
+theorem NormalGamma_Gaussian_pp_normalised_data_partial (pr : Gen.NormalGamma R) (xs : List R) (y : R)
+    (hr : 0 < pr.r.val) (hs : 0 < pr.s.val) (hv : 0 < pr.v.val) :
+    (Gen.NormalGamma.ln_pp_real_Gaussian pr y (.data xs)).val
+      = lnStudentT (Gen.NormalGamma.posterior_real_Gaussian pr (.data xs)).v.val
+          (Gen.NormalGamma.posterior_real_Gaussian pr (.data xs)).m.val
+          ((Gen.NormalGamma.posterior_real_Gaussian pr (.data xs)).s.val
+            * ((Gen.NormalGamma.posterior_real_Gaussian pr (.data xs)).r.val + 1)
+            / ((Gen.NormalGamma.posterior_real_Gaussian pr (.data xs)).v.val
+                * (Gen.NormalGamma.posterior_real_Gaussian pr (.data xs)).r.val)) y.val :=
+  NormalGamma_Gaussian_pp_normalised_partial pr (gfold xs) y hr hs hv (gfold_valid xs).1
+
+-- @site NormalInvGamma.ln_pp_real_Gaussian
+theorem NormalInvGamma_Gaussian_pp_normalised_data_partial (pr : Gen.NormalInvGamma R) (xs : List R) (y : R)
+    (hv : 0 < pr.v.val) (ha : 0 < pr.a.val) (hb : 0 < pr.b.val) :
+    (Gen.NormalInvGamma.ln_pp_real_Gaussian pr y (.data xs)).val
+      = lnStudentT (2 * (Gen.NormalInvGamma.posterior_real_Gaussian pr (.data xs)).a.val)
+          (Gen.NormalInvGamma.posterior_real_Gaussian pr (.data xs)).m.val
+          ((Gen.NormalInvGamma.posterior_real_Gaussian pr (.data xs)).b.val
+            * (1 + (Gen.NormalInvGamma.posterior_real_Gaussian pr (.data xs)).v.val)
+            / (Gen.NormalInvGamma.posterior_real_Gaussian pr (.data xs)).a.val) y.val :=
+  NormalInvGamma_Gaussian_pp_normalised_partial pr (gfold xs) y hv ha hb (gfold_valid xs).1
+
+-- @site NormalInvChiSquared.ln_pp_real_Gaussian
+theorem NormalInvChiSquared_Gaussian_pp_normalised_data_partial (pr : Gen.NormalInvChiSquared R) (xs : List R) (y : R)
+    (hk : 0 < pr.k.val) (hv : 0 < pr.v.val) (hs : 0 < pr.s2.val) :
+    (Gen.NormalInvChiSquared.ln_pp_real_Gaussian pr y (.data xs)).val
+      = lnStudentT (Gen.NormalInvChiSquared.posterior_real_Gaussian pr (.data xs)).v.val
+          (Gen.NormalInvChiSquared.posterior_real_Gaussian pr (.data xs)).m.val
+          ((1 + (Gen.NormalInvChiSquared.posterior_real_Gaussian pr (.data xs)).k.val)
+            * (Gen.NormalInvChiSquared.posterior_real_Gaussian pr (.data xs)).s2.val
+            / (Gen.NormalInvChiSquared.posterior_real_Gaussian pr (.data xs)).k.val) y.val :=
+  NormalInvChiSquared_Gaussian_pp_normalised_partial pr (gfold xs) y hk hv hs (gfold_valid xs).1 (gfold_valid xs).2
+
+/-! ## concrete instances -/
+
+example : (Gen.NormalGamma.ln_m_real_Gaussian (⟨⟨-1⟩, ⟨2⟩, ⟨3/2⟩, ⟨5⟩⟩ : Gen.NormalGamma R) (.data [])).val = 0 :=
+  NormalGamma_Gaussian_ln_m_empty _ (by norm_num) (by norm_num) (by norm_num)
+
+example : Gen.NormalInvChiSquared.ln_m_real_Gaussian (⟨⟨-1⟩, ⟨2⟩, ⟨3/2⟩, ⟨5⟩⟩ : Gen.NormalInvChiSquared R)
+      (.data [⟨3/10⟩, ⟨-6/5⟩, ⟨5/2⟩])
+    = Gen.NormalInvChiSquared.ln_m_real_Gaussian (⟨⟨-1⟩, ⟨2⟩, ⟨3/2⟩, ⟨5⟩⟩ : Gen.NormalInvChiSquared R)
+      (.data [⟨5/2⟩, ⟨3/10⟩, ⟨-6/5⟩]) :=
+  NormalInvChiSquared_Gaussian_ln_m_perm _
+    (List.perm_append_comm (l₁ := [(⟨3/10⟩ : R), ⟨-6/5⟩]) (l₂ := [⟨5/2⟩]))
 
 end C06
 
 -- AXIOMS
-#print axioms C06.gfold_append
 #print axioms C06.NormalGamma_Gaussian_ln_m_cached
 #print axioms C06.NormalGamma_Gaussian_ln_pp_cached
 #print axioms C06.NormalGamma_Gaussian_pp_eq_exp
@@ -280,6 +426,7 @@ end C06
 #print axioms C06.NormalGamma_Gaussian_chain_rule
 #print axioms C06.NormalGamma_Gaussian_ln_m_perm
 #print axioms C06.NormalGamma_Gaussian_ln_m_empty
+#print axioms C06.NormalGamma_Gaussian_pp_normalised_partial
 #print axioms C06.NormalInvGamma_Gaussian_ln_m_cached
 #print axioms C06.NormalInvGamma_Gaussian_ln_pp_cached
 #print axioms C06.NormalInvGamma_Gaussian_pp_eq_exp
@@ -289,8 +436,8 @@ end C06
 #print axioms C06.NormalInvGamma_Gaussian_chain_rule_stat
 #print axioms C06.NormalInvGamma_Gaussian_chain_rule
 #print axioms C06.NormalInvGamma_Gaussian_ln_m_perm
-#print axioms C06.NIG_post_new
 #print axioms C06.NormalInvGamma_Gaussian_ln_m_empty
+#print axioms C06.NormalInvGamma_Gaussian_pp_normalised_partial
 #print axioms C06.NormalInvChiSquared_Gaussian_ln_m_cached
 #print axioms C06.NormalInvChiSquared_Gaussian_ln_pp_cached
 #print axioms C06.NormalInvChiSquared_Gaussian_pp_eq_exp
@@ -301,3 +448,7 @@ end C06
 #print axioms C06.NormalInvChiSquared_Gaussian_chain_rule
 #print axioms C06.NormalInvChiSquared_Gaussian_ln_m_perm
 #print axioms C06.NormalInvChiSquared_Gaussian_ln_m_empty
+#print axioms C06.NormalInvChiSquared_Gaussian_pp_normalised_partial
+#print axioms C06.NormalGamma_Gaussian_pp_normalised_data_partial
+#print axioms C06.NormalInvGamma_Gaussian_pp_normalised_data_partial
+#print axioms C06.NormalInvChiSquared_Gaussian_pp_normalised_data_partial
